@@ -4,7 +4,7 @@ namespace GF
 
 theorem tab_length (n : Nat) : ∀ e : G, (tab n e).length = n := by
   intro e; induction e with
-  | fn f => simp [tab]
+  | fn f m => simp [tab]
   | sum a b iha ihb => simp [tab, iha, ihb]
   | prod a b _ _ => simp [tab]
 
@@ -17,7 +17,7 @@ theorem foldl_range_sum' (g : Nat → ℚ) (n : Nat) :
 /-- the table the driver prints from is the model's coefficient function -/
 theorem tab_eq (n : Nat) : ∀ e : G, tab n e = (List.range n).map (coeff e) := by
   intro e; induction e with
-  | fn f => simp [tab, coeff]
+  | fn f m => simp [tab, coeff]
   | sum a b iha ihb =>
     simp only [tab, iha, ihb]
     apply List.ext_getElem
@@ -48,7 +48,7 @@ theorem evalF_fold (f : Nat → ℚ) (x : ℚ) (n : Nat) :
 /-- the evaluation the driver prints is the model's `eval` -/
 theorem evalF_eq (x : ℚ) : ∀ e : G, evalF e x = eval e x := by
   intro e; induction e with
-  | fn f => simp only [evalF, eval, evalF_fold]
+  | fn f m => simp only [evalF, eval, evalF_fold]
   | sum a b iha ihb => simp [evalF, eval, iha, ihb]
   | prod a b iha ihb => simp [evalF, eval, iha, ihb]
 
